@@ -25,10 +25,11 @@ reg('C11', engine='h_ds',
     floors={'quick': {'c11_remove': 20000, 'c11_update': 20000, 'c11_drains': 5000},
             'thorough': {'c11_remove': 200000}})
 reg('C12', engine='h_ds',
-    rule='one case = one generated PDF history (add/update/remove/clear/sample) in the exact, float or hostile weight '
+    rule='one case = one generated PDF history (add/update/remove/clear/sample; a third start from the two-vector '
+         'constructor with 0-3000 elements) in the exact, float or hostile weight '
          'regime, prefix sums recomputed over getElements() order; non-trivial = at least one sample() was checked',
     floors={'quick': {'c12_samples': 50000, 'c12_remove_sibling_of_last': 500, 'c12_hist_exact': 500,
-                      'c12_hist_hostile': 200},
+                      'c12_hist_hostile': 200, 'c12_bulk_constructed': 5000, 'c12_bulk_constructed_over_1024': 1000},
             'thorough': {'c12_samples': 500000}})
 reg('C13', engine='h_ds',
     rule='one case = one generated history on Grid / GridN / GridB(<) / GridB(>) in dimension 1-6 compared with a '
